@@ -311,7 +311,13 @@ type worker struct {
 
 func jobID(ci int, p string) string { return fmt.Sprintf("%d|%s", ci, p) }
 
-// flush evaluates the accumulated cases.
+// flush evaluates the accumulated cases in three rounds:
+//  1. every printing of every case;
+//  2. for each failing (case, printing): all strictly smaller variants of the tree (a sub-tree
+//     hoisted to the top, a sub-tree replaced by a leaf) - if one of them fails too, the case is a
+//     superset of a smaller case of the enumeration, which carries the finding (delta-reduction);
+//  3. for the remaining, minimal failing cases: which single pair (or two pairs) of parentheses
+//     restores the table's value - that edge of the tree names the finding.
 func (w *worker) flush(ps []*pending) {
 	if len(ps) == 0 {
 		return
@@ -329,13 +335,13 @@ func (w *worker) flush(ps []*pending) {
 	out := w.batch.Run(jobs)
 	w.evals += int64(len(jobs))
 	type todo struct {
-		ci     int
-		clause string
-		pr     printing
-		edges  []edge
+		ci    int
+		pr    printing
+		edges []edge
+		cands int
 	}
-	var todos []todo
-	var loc []exprsem.Job
+	var todos []*todo
+	var red []exprsem.Job
 	for ci, p := range ps {
 		p.outs = map[string]string{}
 		for _, pr := range printings {
@@ -367,128 +373,142 @@ func (w *worker) flush(ps []*pending) {
 			if pr.name != "min" && !minOK {
 				continue // already reported through the plain minimal printing
 			}
-			es := p.t.atStake()
-			for ei, e := range es {
-				st := pr.st
-				st.extra = e.child
-				loc = append(loc, exprsem.Job{ID: fmt.Sprintf("%d|%s|%d", ci, pr.name, ei), Src: source(p.t, p.a, printing{pr.name, st, pr.arg})})
+			td := &todo{ci: ci, pr: pr, edges: p.t.atStake()}
+			ti := len(todos)
+			for _, cand := range smaller(p.t, p.a) {
+				if strings.HasPrefix(pr.name, "spacing") && !hasPlusMinus(cand.t) {
+					continue
+				}
+				red = append(red, exprsem.Job{ID: fmt.Sprintf("%d|%d|v", ti, td.cands), Src: source(cand.t, cand.a, pr)},
+					exprsem.Job{ID: fmt.Sprintf("%d|%d|f", ti, td.cands), Src: source(cand.t, cand.a, printings[1])})
+				td.cands++
 			}
-			todos = append(todos, todo{ci, pr.name, pr, es})
+			todos = append(todos, td)
 		}
 	}
 	if len(todos) == 0 {
 		return
 	}
-	// localisation: which single pair of parentheses restores the table's value?
+	rout := w.batch.Run(red)
+	w.evals += int64(len(red))
+	var loc []exprsem.Job
+	var minimal []int
+	for ti, td := range todos {
+		reduced := false
+		for k := 0; k < td.cands; k++ {
+			if norm(rout[fmt.Sprintf("%d|%d|v", ti, k)]) != norm(rout[fmt.Sprintf("%d|%d|f", ti, k)]) {
+				reduced = true
+				break
+			}
+		}
+		if reduced {
+			w.explained++
+			continue
+		}
+		minimal = append(minimal, ti)
+		p := ps[td.ci]
+		for i, e := range td.edges {
+			st := td.pr.st
+			st.extra = e.child
+			loc = append(loc, exprsem.Job{ID: fmt.Sprintf("%d|s%d", ti, i), Src: source(p.t, p.a, printing{td.pr.name, st, td.pr.arg})})
+			for j := i + 1; j < len(td.edges); j++ {
+				st.extra2 = td.edges[j].child
+				loc = append(loc, exprsem.Job{ID: fmt.Sprintf("%d|p%d.%d", ti, i, j), Src: source(p.t, p.a, printing{td.pr.name, st, td.pr.arg})})
+			}
+		}
+	}
+	if len(minimal) == 0 {
+		return
+	}
 	lout := w.batch.Run(loc)
 	w.evals += int64(len(loc))
-	type open struct {
-		td   todo
-		subs int
-	}
-	var opens []open
-	var sub []exprsem.Job
-	for ti, td := range todos {
+	for _, ti := range minimal {
+		td := todos[ti]
 		p := ps[td.ci]
 		full := norm(p.outs["full"])
 		var culprits []edge
-		for ei, e := range td.edges {
-			if norm(lout[fmt.Sprintf("%d|%s|%d", td.ci, td.clause, ei)]) == full {
+		for i, e := range td.edges {
+			if norm(lout[fmt.Sprintf("%d|s%d", ti, i)]) == full {
 				culprits = append(culprits, e)
 			}
 		}
-		if len(culprits) > 0 {
-			w.fail(p, td.clause, td.pr, culprits, td.edges)
-			continue
-		}
-		// no single pair of parentheses repairs it: is a proper sub-expression already wrong on its
-		// own? then this case is a superset of a smaller enumerated case (delta-reduction by hoisting)
-		n := 0
-		var walk func(x *node)
-		walk = func(x *node) {
-			for _, k := range x.kids {
-				if k.op != nil {
-					st, sa := subCase(k, p.a)
-					sub = append(sub, exprsem.Job{ID: fmt.Sprintf("%d|%d|v", ti, n), Src: source(st, sa, td.pr)},
-						exprsem.Job{ID: fmt.Sprintf("%d|%d|f", ti, n), Src: source(st, sa, printings[1])})
-					n++
-					walk(k)
-				}
-			}
-		}
-		walk(p.t)
-		// ... or do two pairs of parentheses repair it (two mechanisms at once)?
-		for i := 0; i < len(td.edges); i++ {
+		for i := 0; i < len(td.edges) && culprits == nil; i++ {
 			for j := i + 1; j < len(td.edges); j++ {
-				st := td.pr.st
-				st.extra, st.extra2 = td.edges[i].child, td.edges[j].child
-				sub = append(sub, exprsem.Job{ID: fmt.Sprintf("%d|p%d.%d", ti, i, j), Src: source(p.t, p.a, printing{td.pr.name, st, td.pr.arg})})
-			}
-		}
-		opens = append(opens, open{td, n})
-	}
-	if len(opens) == 0 {
-		return
-	}
-	sout := w.batch.Run(sub)
-	w.evals += int64(len(sub))
-	for oi, o := range opens {
-		_ = oi
-		ti := -1
-		for i := range todos {
-			if todos[i].ci == o.td.ci && todos[i].clause == o.td.clause {
-				ti = i
-			}
-		}
-		explained := false
-		var pair []edge
-		full := norm(ps[o.td.ci].outs["full"])
-		for i := 0; i < len(o.td.edges) && pair == nil; i++ {
-			for j := i + 1; j < len(o.td.edges); j++ {
-				if norm(sout[fmt.Sprintf("%d|p%d.%d", ti, i, j)]) == full {
-					pair = []edge{o.td.edges[i], o.td.edges[j]}
+				if norm(lout[fmt.Sprintf("%d|p%d.%d", ti, i, j)]) == full {
+					culprits = []edge{td.edges[i], td.edges[j]}
 					break
 				}
 			}
 		}
-		if pair != nil {
-			w.fail(ps[o.td.ci], o.td.clause, o.td.pr, pair, o.td.edges)
-			continue
-		}
-		for k := 0; k < o.subs; k++ {
-			if norm(sout[fmt.Sprintf("%d|%d|v", ti, k)]) != norm(sout[fmt.Sprintf("%d|%d|f", ti, k)]) {
-				explained = true
-			}
-		}
-		if explained {
-			w.explained++
-			continue
-		}
-		w.fail(ps[o.td.ci], o.td.clause, o.td.pr, nil, o.td.edges)
+		w.fail(p, td.pr.name, td.pr, culprits, td.edges)
 	}
 }
 
-// subCase makes a stand-alone case of a sub-tree, keeping the leaf values it had.
-func subCase(k *node, a assignment) (*node, assignment) {
-	st := k.clone()
-	old := []int{}
+type variant struct {
+	t *node
+	a assignment
+}
+
+var fillLit = map[typ]string{tI: "4", tS: `"q"`, tB: "true", tN: "null"}
+
+// smaller lists the strictly smaller variants of a case: every proper non-leaf sub-tree on its
+// own, and the tree with one non-leaf sub-tree replaced by a leaf of the same type.
+func smaller(t *node, a assignment) []variant {
+	var out []variant
+	var subs []*node
 	var walk func(x *node)
 	walk = func(x *node) {
+		for _, k := range x.kids {
+			if k.op != nil {
+				subs = append(subs, k)
+				walk(k)
+			}
+		}
+	}
+	walk(t)
+	for _, k := range subs {
+		out = append(out, rebuild(k, nil, a))
+		if k.op.kind != kAssign { // an assignment right-hand side keeps its shape
+			out = append(out, rebuild(t, k, a))
+		}
+	}
+	return out
+}
+
+// rebuild clones root (replacing the sub-tree cut by a fresh leaf) and re-derives the assignment.
+func rebuild(root, cut *node, a assignment) variant {
+	na := assignment{useVars: a.useVars}
+	var cp func(x *node) *node
+	cp = func(x *node) *node {
+		if x == cut {
+			l := &node{t: x.t, leaf: len(na.lits)}
+			na.lits = append(na.lits, fillLit[x.t])
+			switch x.t {
+			case tI:
+				na.vals = append(na.vals, data.NewIntValue(4))
+			case tS:
+				na.vals = append(na.vals, data.NewStringValue("q"))
+			case tB:
+				na.vals = append(na.vals, data.NewBoolValue(true))
+			default:
+				na.vals = append(na.vals, data.NewNullValue())
+			}
+			return l
+		}
+		c := *x
 		if x.op == nil {
-			old = append(old, x.leaf)
+			c.leaf = len(na.lits)
+			na.lits = append(na.lits, a.lits[x.leaf])
+			na.vals = append(na.vals, a.vals[x.leaf])
+			return &c
 		}
-		for _, c := range x.kids {
-			walk(c)
+		c.kids = make([]*node, len(x.kids))
+		for i, k := range x.kids {
+			c.kids[i] = cp(k)
 		}
+		return &c
 	}
-	walk(st)
-	st.number()
-	sa := assignment{useVars: a.useVars}
-	for _, i := range old {
-		sa.vals = append(sa.vals, a.vals[i])
-		sa.lits = append(sa.lits, a.lits[i])
-	}
-	return st, sa
+	return variant{cp(root), na}
 }
 
 // findingKey names the violated sentence of the table: (outer class, operand position, inner
@@ -500,10 +520,10 @@ func findingKey(clause string, e edge) string {
 		return "signed-literal:" + className(p) + "/" + posName(e.parent, e.pos)
 	}
 	switch {
-	case c.cls == clsCast:
-		return clause + ":cast-operand" // how far a cast's operand extends does not depend on the context
 	case p.cls == clsConcat && c.cls.level >= clsAdd.level:
 		return clause + ":concat-vs-arithmetic" // "'.' looser than arithmetic"
+	case c.cls == clsCast:
+		return clause + ":cast-operand" // how far a cast's operand extends does not depend on the context
 	case c.cls == clsConcat:
 		return clause + ":" + className(p) + "/" + posName(e.parent, e.pos) + ":concat"
 	case p.cls == clsPow && e.pos == 1 && c.kind == kPrefix:
@@ -660,7 +680,7 @@ func main() {
 		replay(c)
 		return
 	}
-	c.SetBudget(4*time.Minute, 25*time.Minute)
+	c.SetBudget(5*time.Minute, 45*time.Minute)
 	// bounds: all operators up to maxFull operators per tree, the core operator set one size further
 	maxFull, coreSize := 2, 3
 	if !c.Quick() {
@@ -670,17 +690,25 @@ func main() {
 		fmt.Sscan(v, &maxFull)
 		coreSize = maxFull + 1
 	}
-	var shards []pool.Shard
 	counts := map[string]int64{}
-	addLevel := func(n int, core bool) {
+	var trees, cases, evals, scripts, stake, explained int64
+	outcomes := map[string]int{}
+	edges := map[string]int{}
+	completed := "nothing"
+	runLevel := func(n int, core bool) {
+		if c.Expired() {
+			c.NotExhaustive("wall-clock budget reached; completed: " + completed)
+			return
+		}
 		g := newGenerator(core)
 		var total int64
 		g.forEachTree(n, func(idx int64, t *node) bool { total = idx + 1; return true })
 		counts[fmt.Sprintf("trees_with_%d_operators_core=%v", n, core)] = total
 		per := total/96 + 1
-		if per > 4000 {
-			per = 4000
+		if per > 3000 {
+			per = 3000
 		}
+		var shards []pool.Shard
 		for lo := int64(0); lo < total; lo += per {
 			hi := lo + per
 			if hi > total {
@@ -688,42 +716,40 @@ func main() {
 			}
 			shards = append(shards, pool.Shard{Kind: "c04", Arg: shardArg{N: n, Lo: lo, Hi: hi, Core: core, Seed: c.Seed}})
 		}
+		pool.Run(shards, pool.Options{}, func(si int, rb json.RawMessage) {
+			var r rec
+			json.Unmarshal(rb, &r)
+			switch r.Kind {
+			case "count":
+				trees += r.Trees
+				cases += r.Cases
+				evals += r.Evals
+				scripts += r.Scripts
+				stake += r.Stake
+				explained += r.Explained
+				for k, v := range r.Outcomes {
+					outcomes[k] += v
+				}
+				for k, v := range r.Edges {
+					edges[k] += v
+				}
+			case "fail":
+				if os.Getenv("C04_VERBOSE") != "" {
+					fmt.Printf("FAIL %s | %s\n", r.Fail.Key, strings.ReplaceAll(r.Fail.Detail, "\n", " ## "))
+				}
+				c.Fail(r.Fail.Key, r.Fail.Clause, r.Fail.Size, r.Fail.Case, r.Fail.Detail)
+			case "sample":
+				c.Sample(r.Sample)
+			}
+		}, func(d pool.Death) {
+			c.Fail("worker-death:"+runner.FatalFrame(d.Stderr), "crash", 0, map[string]any{"item": d.Item, "reason": d.Reason}, d.Stderr)
+		})
+		completed = fmt.Sprintf("trees with <= %d operators (core set only: %v)", n, core)
 	}
 	for n := 1; n <= maxFull; n++ {
-		addLevel(n, false)
+		runLevel(n, false)
 	}
-	addLevel(coreSize, true)
-	var trees, cases, evals, scripts, stake, explained int64
-	outcomes := map[string]int{}
-	edges := map[string]int{}
-	pool.Run(shards, pool.Options{}, func(si int, rb json.RawMessage) {
-		var r rec
-		json.Unmarshal(rb, &r)
-		switch r.Kind {
-		case "count":
-			trees += r.Trees
-			cases += r.Cases
-			evals += r.Evals
-			scripts += r.Scripts
-			stake += r.Stake
-			explained += r.Explained
-			for k, v := range r.Outcomes {
-				outcomes[k] += v
-			}
-			for k, v := range r.Edges {
-				edges[k] += v
-			}
-		case "fail":
-			if os.Getenv("C04_VERBOSE") != "" {
-				fmt.Printf("FAIL %s | %s\n", r.Fail.Key, strings.ReplaceAll(r.Fail.Detail, "\n", " ## "))
-			}
-			c.Fail(r.Fail.Key, r.Fail.Clause, r.Fail.Size, r.Fail.Case, r.Fail.Detail)
-		case "sample":
-			c.Sample(r.Sample)
-		}
-	}, func(d pool.Death) {
-		c.Fail("worker-death:"+runner.FatalFrame(d.Stderr), "crash", 0, map[string]any{"item": d.Item, "reason": d.Reason}, d.Stderr)
-	})
+	runLevel(coreSize, true)
 	for k, v := range outcomes {
 		c.Outcome(k)
 		c.Add("outcome:"+k, int64(v))
